@@ -36,7 +36,14 @@ H3 = gen.schema(
     keytype='identifier', handler='hs',
     types=[gen.stype('ta', [gen.key('h1', handler='hk')], keytype='ipaddr-or-hostname')],
     items=[gen.key('Ka', handler='ha'), gen.key('kb', handler='Hb'), gen.multisection('ta', '*', attr='xs', handler='hm')])
-SCH = {'H1': H1, 'H2': H2, 'H3': H3}
+# an intermediate section type WITHOUT any handler attribute whose sections contain handler-bearing items
+H4 = gen.schema(
+    handler='hs',
+    types=[gen.stype('tc', [gen.key('kd', handler='hk'), gen.key('ke')]),
+           gen.stype('tm', [gen.multisection('tc', '*', attr='cs'), gen.key('km')]),
+           gen.stype('to', [gen.section('tm', '*', attr='sm'), gen.multisection('tc', '+', attr='cs', handler='hc')])],
+    items=[gen.section('tm', '*', attr='sm'), gen.multisection('to', '+', attr='os'), gen.key('ka', handler='ha')])
+SCH = {'H1': H1, 'H2': H2, 'H3': H3, 'H4': H4}
 XMLS = {k: gen.render(v) for k, v in SCH.items()}
 VIEWS = {k: gen.View(v) for k, v in SCH.items()}
 
@@ -54,7 +61,10 @@ TEXTS = {
     ],
 }
 TEXTS['H3'] = [['Ka 1', 'kb 2', '<ta/>', '<ta x>', 'h1 v', '</ta>'], []]
-NAMES = {'H1': ['ha', 'hb', 'hc', 'hd', 'he', 'hk', 'hm', 'hs'], 'H2': ['h-a', 'h.w'],
+TEXTS['H4'] = [['<tm>', '<tc/>', '<tc x>', 'kd 1', '</tc>', '</tm>', 'ka 2'],
+               ['<to o1>', '<tm>', '<tc/>', '</tm>', '<tc c1/>', '</to>', '<to o2>', '<tc c2>', 'kd 3', '</tc>', '<tm>', '<tc/>', '<tc y/>',
+                '</tm>', '</to>', '<tm/>']]
+NAMES = {'H4': ['ha', 'hc', 'hk', 'hs'], 'H1': ['ha', 'hb', 'hc', 'hd', 'he', 'hk', 'hm', 'hs'], 'H2': ['h-a', 'h.w'],
          'H3': ['ha', 'hb', 'hk', 'hm', 'hs']}
 
 
@@ -158,7 +168,7 @@ class C16(P.TextMixin, Harness):
                  'ZConfig.matcher.SchemaMatcher.finish', 'ZConfig.schema.BaseParser.get_handler',
                  'ZConfig.matcher.', 'ZConfig.loader.')
     assumptions = (
-        'schemas H1, H2, H3 (H3: schema key type identifier, section key type ipaddr-or-hostname; handlers on the schema, keys, multikeys, sections, multisections at two '
+        'schemas H1, H2, H3, H4 (H4: handler-free intermediate section types; H3: schema key type identifier, section key type ipaddr-or-hostname; handlers on the schema, keys, multikeys, sections, multisections at two '
         'depths; hyphen and dot in handler names) and the enumerated texts',
         'handler-map names are legal basic-keys (precondition on the symbolic names); names that are '
         'not legal basic-keys raise ValueError from the normaliser and are outside the statement',
